@@ -52,6 +52,18 @@ def corpus():
             for prop, files in sorted(anchors.items()):
                 if touched & files or any(prop in extra.get(t, ()) for t in touched):
                     items.append({"id": "benign/%s" % f[:-5], "prop": prop, "patch": pp, "expect": "holds"})
+    # property-PRESERVING functional changes written by independent reviewers (keep/): a check may end without verdict on a re-implementation it cannot
+    # read (exit 2), but it must never report a VIOLATION
+    kd = os.path.join(VERIF, "keep")
+    if os.path.isdir(kd):
+        for f in sorted(os.listdir(kd)):
+            if not f.endswith(".diff"):
+                continue
+            pp = os.path.join(kd, f)
+            touched = {l[6:].strip() for l in open(pp) if l.startswith("+++ b/")}
+            for prop, files in sorted(anchors.items()):
+                if touched & files or any(prop in extra.get(t, ()) for t in touched) or f.startswith(prop + "_"):
+                    items.append({"id": "keep/%s" % f[:-5], "prop": prop, "patch": pp, "expect": "no-violation"})
     return items
 
 
@@ -91,6 +103,10 @@ def run_one(m):
                 obs = [obs] if isinstance(obs, str) else obs
                 if not any(("REFUTED %s " % o) in out for o in obs):
                     return m, "WRONG-OB", out[-800:]
+            return m, "ok", ""
+        elif m["expect"] == "no-violation":
+            if r.returncode == 1 or "VIOLATION" in out:
+                return m, "FALSE-ALARM", "exit %d\n%s" % (r.returncode, out[-800:])
             return m, "ok", ""
         else:
             if r.returncode != 0:
